@@ -12,9 +12,10 @@ import random
 
 import numpy as np
 
-from . import core
+from . import core, pylite_tie
 from .core import Case, cD, cZ, clist, cbool
 
+obligations = pylite_tie.blockreduce_obligations   # source-regenerated tie of BlockReduce._block_coordinates (harness/pylite_blockreduce.v.tmpl)
 ID = "C09"
 PROPS_FILE = "Props/C09.v"
 IMPORTS = "From Verde Require Import Lib.QList Model.BlockReduce Model.Weights Model.BlockGeo."
